@@ -484,3 +484,43 @@ def c19_bad(tier, rnd):
         al = Alloc(tier)
         P([Text("pre"), Open(cond=b), Text("k", bad(kbad + 1)), CLOSE, Text("post")], al, "two-plants")
     return progs
+
+
+# ------------------------------------------------------------------ C07
+def c07_family(tier, rnd):
+    quick = tier == "quick"
+    statics = [
+        [],
+        ["class"],
+        [("class", {"q": "'", "v": 'say "hi"'}), ("ID", {"v": "i1", "sp": "  ", "eq": " = "})],
+        ["checked", "class", ("title", {"q": '"', "v": "it's"})],
+    ]
+    named = ["class", "CLASS", "id", "checked", "title"]
+    ndom = [NONE, DEFAULT, S(""), B(False), S("h")] if quick else \
+        [NONE, DEFAULT, S(""), I(0), B(False), B(True), S("a"), S("h"), BY("h"), OBJ("html")]
+    ddom = [DICT([]), DICT([("class", S("b"))]), DICT([("id", S("c")), ("checked", B(True))]),
+            DICT([("class", NONE), ("title", S("h")), ("checked", I(0))])]
+    kinds = named + ["{}"]
+    lists = [(a,) for a in kinds] + [(a, b) for a in kinds for b in kinds if a != b or a == "{}"]
+    l3 = [(a, b, c) for a in kinds for b in kinds for c in kinds if len({x for x in (a, b, c) if x != "{}"}) == len([x for x in (a, b, c) if x != "{}"])]
+    if quick:
+        lists = lists[:6] + rnd.sample(lists[6:], 18)
+        l3 = rnd.sample(l3, 10)
+    lists += l3
+    configs = [("html", None, ["checked"]), ("none", set(), []), ("explicit", {"class", "id"}, ["class", "id"])]
+    progs = []
+    for st in statics:
+        for lst in lists:
+            for cname, cfgset, bools in (configs if not quick else [configs[len(progs) % 3]]):
+                al = Alloc(tier)
+                dattr = []
+                for n in lst:
+                    if n == "{}":
+                        dattr.append(("", al.call("attrs", ddom)))
+                    else:
+                        dattr.append((n, al.call("attrs", ndom)))
+                items = [Text("pre"), Open(sattr=st, dattr=dattr, bools=bools), Text("k"), CLOSE, Text("post")]
+                cfg = {} if cfgset is None else {"boolean_attributes": sorted(cfgset)}
+                progs.append(program(items, al.dom, cfg=cfg, bools=bools,
+                                     fam="C07:%s:[%s]:%s" % (",".join(s if isinstance(s, str) else s[0] for s in st), ";".join(lst), cname)))
+    return progs
